@@ -220,3 +220,7 @@ META = {
     'technique': 'static analysis: exhaustive ordering enumeration of ownership / stop predicates, exact clamp check of fetch windows, producer/consumer field agreement',
     'design_ref': 'DESIGN.md section 5, C08',
 }
+
+
+from . import shared as _shared
+_shared.register('C08', 'C08')
